@@ -8,6 +8,7 @@ import (
 	"net"
 	"sort"
 	"sync"
+	"sync/atomic"
 	"time"
 
 	"github.com/prometheus/client_golang/prometheus"
@@ -38,11 +39,69 @@ func VSendLocal(self *Peer, ttl int) int {
 	return m.TTL
 }
 
-// VWasProcessed: BatchProcessor.wasProcessed for an agent with the given cache (nil = no cache).
+// "Was this batch processed before?", decided by BEHAVIOUR rather than by calling the private method (whose name and
+// signature a refactoring may change): the batch is sent through a real BatchProcessor on an agent with the given cache,
+// one counting task factory and a counting task manager; it was "processed before" iff no task is created for it. A
+// sentinel batch that nobody has seen follows it: when the sentinel's task appears the first message has been handled.
+type vCountTM struct{}
+
+func (t *vCountTM) Start()         {}
+func (t *vCountTM) Stop()          {}
+func (t *vCountTM) Add(Task) error { return nil }
+func (t *vCountTM) Len() int       { return 0 }
+
+// the factory sees the batch a task is created for: the sentinel is recognised by its signature
+type vCountTF struct {
+	sentinel string
+	others   int32
+	done     chan struct{}
+}
+
+func (f *vCountTF) New(ctx context.Context) Task {
+	if b, ok := ctx.Value("batch").(*protocol.BatchSnapshots); ok && b != nil && len(b.Snapshots) == 1 && b.Snapshots[0] != nil && string(b.Snapshots[0].Signature) == f.sentinel {
+		select {
+		case f.done <- struct{}{}:
+		default:
+		}
+	} else {
+		atomic.AddInt32(&f.others, 1)
+	}
+	return func() error { return nil }
+}
+func (f *vCountTF) Metrics() []prometheus.Collector { return nil }
+
+var vSentinel uint64
+
+func vWasProcessed(a *Agent, b *protocol.BatchSnapshots) bool {
+	a.Tasks = &vCountTM{}
+	a.In = MessageBus{log: a.log}
+	a.Out = MessageBus{log: a.log}
+	k := atomic.AddUint64(&vSentinel, 1)
+	tf := &vCountTF{sentinel: time.Now().Format(time.RFC3339Nano) + "/verif-sentinel", done: make(chan struct{}, 1)}
+	p := NewBatchProcessor(a, []TaskFactory{tf}, log.L())
+	ch := make(chan *Message, 2)
+	p.Subscribe(0, ch)
+	defer p.Stop()
+	payload, err := b.Encode()
+	if err != nil {
+		return false
+	}
+	ch <- &Message{Kind: BatchMessageType, TTL: 0, Payload: payload}
+	sent := &protocol.BatchSnapshots{Snapshots: []*protocol.SignedSnapshot{{Snapshot: &protocol.Snapshot{Version: k}, Signature: []byte(tf.sentinel)}}}
+	sp, _ := sent.Encode()
+	ch <- &Message{Kind: BatchMessageType, TTL: 0, Payload: sp}
+	select {
+	case <-tf.done: // the processor handles one message after the other: the batch has been dealt with
+	case <-time.After(10 * time.Second):
+	}
+	return atomic.LoadInt32(&tf.others) == 0
+}
+
+// VWasProcessed: was the batch processed before, on an agent with the given cache (nil = no cache)?
 func VWasProcessed(c Cache, b *protocol.BatchSnapshots) bool {
 	a := bareAgent(NewPeer("self", "127.0.0.1", 1, "auditor"), NewTopology())
 	a.Cache = c
-	return NewBatchProcessor(a, nil, log.L()).wasProcessed(b)
+	return vWasProcessed(a, b)
 }
 
 // VWasProcessedCfg: the same on an agent whose configuration carries the given broadcast timeout.
@@ -50,7 +109,7 @@ func VWasProcessedCfg(c Cache, b *protocol.BatchSnapshots, broadcastTimeout time
 	a := bareAgent(NewPeer("self", "127.0.0.1", 1, "auditor"), NewTopology())
 	a.Cache = c
 	a.config.BroadcastTimeout = broadcastTimeout
-	return NewBatchProcessor(a, nil, log.L()).wasProcessed(b)
+	return vWasProcessed(a, b)
 }
 
 // VTopology exposes the agent's view.
